@@ -316,6 +316,32 @@ def gen_insphere():
 # Fragment 2: orientation of stored face normals
 # --------------------------------------------------------------------------
 
+def subst_paths(e, env):
+    """replace single-segment paths by the expressions bound to them"""
+    if isinstance(e, tuple):
+        if e and e[0] == 'path' and len(e[1]) == 1 and e[1][0] in env:
+            return ('paren', env[e[1][0]])
+        return tuple(subst_paths(x, env) for x in e)
+    if isinstance(e, list):
+        return [subst_paths(x, env) for x in e]
+    return e
+
+
+def inline_lets(stmts, e, env=None):
+    """value of `e` after the immutable `let x = ..;` bindings of `stmts` (pure right-hand sides assumed: analysis only)"""
+    env = dict(env or {})
+    for st in stmts:
+        if st[0] == 'let' and not st[1] and st[2][0] == 'pvar' and st[4] is not None:
+            env[st[2][1]] = subst_paths(st[4], env)
+    return subst_paths(e, env)
+
+
+def strip_parens(e):
+    while isinstance(e, tuple) and e and e[0] == 'paren':
+        e = e[1]
+    return e
+
+
 def find_let(tokens, name):
     """tokens of the initialiser of the first `let [mut] name = ... ;`"""
     for i in range(len(tokens) - 3):
@@ -352,6 +378,8 @@ def sign_of_field_chain(e, last):
         return -sign_of_field_chain(e[2], last)
     if e[0] == 'paren':
         return sign_of_field_chain(e[1], last)
+    if e[0] == 'mcall' and e[2] in ('clone',) and not e[3]:
+        return sign_of_field_chain(e[1], last)
     if e[0] == 'field' and e[2] == last:
         return 1
     if e[0] == 'mcall' and e[2] == 'normal' and not e[3]:
@@ -360,28 +388,36 @@ def sign_of_field_chain(e, last):
 
 
 def gen_face():
-    # 1. which way does the clipping plane normal of `ConvexCell::build` point?
+    # 1. which way does the clipping plane normal of `ConvexCell::build` point?  (the normal handed to `HalfSpace::new`,
+    #    with the local bindings of the loop body inlined: ± (cell.loc - neighbour) / dist)
     toks = tokenize(strip_attrs_cfg(read('src/voronoi/convex_cell.rs')))
-    _, body, _ = find_fn(toks, 'build')
-    dx = parse_expr_tokens(find_let(body, 'dx'))
-    if dx[0] != 'bin' or dx[1] != '-':
-        raise Unparsed("dx is not a difference")
-    left_is_cell = mentions(dx[2], 'loc') and not mentions(dx[2], 'ngb_loc')
-    right_is_ngb = mentions(dx[3], 'ngb_loc')
-    left_is_ngb = mentions(dx[2], 'ngb_loc')
-    right_is_cell = mentions(dx[3], 'loc') and not mentions(dx[3], 'ngb_loc')
-    if left_is_cell and right_is_ngb:
-        clip = 1          # n ∥ g - q : points into the cell
-    elif left_is_ngb and right_is_cell:
-        clip = -1
+    _, body, _ = find_fn_in_impls(toks, 'ConvexCell', 'build')
+    bblk = parse_body(body)
+    loop = find_stmt(bblk[1], lambda s_: s_[0] == 'for')
+    if loop is None:
+        raise Unparsed("clipping loop")
+    hsnew = extract2.find_node(loop[3], lambda n_: n_[0] == 'call' and n_[1] == ('path', ['HalfSpace', 'new']))
+    if hsnew is None:
+        raise Unparsed("HalfSpace::new in the clipping loop")
+    nexpr = strip_parens(inline_lets(loop[3][1], hsnew[2][0]))
+    clip = 1
+    if nexpr[0] == 'un' and nexpr[1] == '-':
+        clip, nexpr = -1, strip_parens(nexpr[2])
+    if not (nexpr[0] == 'bin' and nexpr[1] in ('/', '*')):
+        raise Unparsed("normal is not a scaled difference")
+    num = strip_parens(nexpr[2])
+    if nexpr[1] == '*' and not (num[0] == 'bin' and num[1] == '-'):
+        num = strip_parens(nexpr[3])
+    if not (num[0] == 'bin' and num[1] == '-'):
+        raise Unparsed("normal is not a scaled difference")
+    lhs_cell = mentions(num[2], 'loc') and extract2.find_node(num[2], lambda n_: n_[0] == 'field' and n_[2] == 'loc' and n_[1][0] == 'path') is not None
+    rhs_cell = mentions(num[3], 'loc') and extract2.find_node(num[3], lambda n_: n_[0] == 'field' and n_[2] == 'loc' and n_[1][0] == 'path') is not None
+    if lhs_cell and not rhs_cell:
+        pass               # n ∥ g - q : points into the cell
+    elif rhs_cell and not lhs_cell:
+        clip = -clip
     else:
-        raise Unparsed("cannot tell the orientation of dx")
-    n = parse_expr_tokens(find_let(body, 'n'))
-    if not (n[0] == 'bin' and n[1] == '/' and mentions(n[2], 'dx')):
-        if n[0] == 'un' and n[1] == '-' and mentions(n[2], 'dx'):
-            clip = -clip
-        else:
-            raise Unparsed("n is not dx / dist")
+        raise Unparsed("cannot tell the orientation of the clipping normal")
     # 2. what does `VoronoiFaceIntegral::init` store?
     toks = tokenize(strip_attrs_cfg(read('src/voronoi/voronoi_face.rs')))
     s, e = find_impl(toks, ['FaceIntegral', 'for', 'VoronoiFaceIntegral'])
@@ -393,7 +429,7 @@ def gen_face():
     normal = dict((f, v) for f, v in lit[2]).get('normal')
     if normal is None:
         raise Unparsed("no `normal` field")
-    stored = sign_of_field_chain(normal, 'n')
+    stored = sign_of_field_chain(inline_lets(blk[1], normal), 'n')
     out = []
     out.append("/-- orientation of the clipping plane normal built by `ConvexCell::build` relative to `g - q` (generator minus neighbour) -/")
     out.append("def clipNormalSign : Int := %d" % clip)
@@ -490,14 +526,18 @@ def gen_grid():
             if guard is not None or pat[0] != 'pctor':
                 raise Unparsed("grid_width match arm")
             while val[0] in ('paren', 'block'):
-                val = val[1] if val[0] == 'paren' else (val[2] if not val[1] and val[2] is not None else val)
-                if val[0] == 'block':
+                if val[0] == 'paren':
+                    val = val[1]
+                elif val[2] is not None and all(st[0] == 'let' for st in val[1]):
+                    val = inline_lets(val[1], val[2])
+                else:
                     raise Unparsed("grid_width arm is a block with statements")
             arms[pat[1][-1]] = val
 
         def is_max_xy(e):
-            while e[0] == 'paren':
-                e = e[1]
+            e = strip_parens(e)
+            if e[0] == 'mcall':
+                e = ('mcall', strip_parens(e[1]), e[2], [strip_parens(x) for x in e[3]])
             return (e[0] == 'mcall' and e[2] == 'max' and len(e[3]) == 1 and
                     {(e[1][0], e[1][2] if e[1][0] == 'field' else None), (e[3][0][0], e[3][0][2] if e[3][0][0] == 'field' else None)} == {('field', 'x'), ('field', 'y')}
                     and is_path(e[1][1], 'width') and is_path(e[3][0][1], 'width'))
@@ -511,8 +551,7 @@ def gen_grid():
             raise Unparsed("grid_width arms are not (width | (max xy, max xy, z) | splat(max element))")
         shared = True
     # mantissa mask of iloc
-    _, ibody, _ = find_fn(toks, 'iloc')
-    mask = parse_expr_tokens(find_let(ibody, 'mantissa_mask'))
+    mask = parse_expr_tokens(find_let(toks, 'mantissa_mask'))
     if mask[0] != 'num':
         raise Unparsed("mantissa mask")
     mv = int(mask[1].replace('u64', '').replace('_', ''), 16)
@@ -1081,19 +1120,46 @@ ProcEmitter = extract2.make_proc_emitter(FloatEmitter)
 VARS = "variable {α : Type} [Add α] [Sub α] [Mul α] [Div α] [Neg α] [NatCast α] [Scalar α]\n"
 
 
-def is_dim_iflet(s):
-    return s[0] == 'expr' and s[1][0] == 'iflet' and s[1][2] == ('path', ['dimensionality'])
+def dim_stmt(s, dimname):
+    """a statement of the normalisation block: `if let <dims> = dimensionality {..}` or `match dimensionality {..}`"""
+    return s[0] == 'expr' and ((s[1][0] == 'iflet' and s[1][2] == ('path', [dimname])) or (s[1][0] == 'match' and s[1][1] == ('path', [dimname])))
 
 
-def emit_normalise(name, body_tokens, what):
-    ss = extract2.leading_stmts(body_tokens, is_dim_iflet)
+def emit_normalise(name, params, body_tokens, what, lookup):
+    pl = params_of(params)
+    vecs = [nm for nm, ty in pl if 'DVec3' in ty and '[' not in ty]
+    dimname = next((nm for nm, ty in pl if 'Dimensionality' in ty), None)
+    if len(vecs) != 2 or dimname is None:
+        raise Unparsed("parameters of %s" % what)
+    aname, wname = vecs
+    env = {aname: ('anchor', 'V3'), wname: ('width', 'V3'), dimname: ('dimensionality', 'Dim')}
+
+    def is_helper_call(s):
+        return (s[0] == 'expr' and s[1][0] == 'call' and s[1][1][0] == 'path' and len(s[1][1][1]) <= 2
+                and {a[1][0] for a in s[1][2] if a[0] == 'path' and len(a[1]) == 1} >= {aname, wname, dimname} and lookup(s[1][1][1][-1]) is not None)
+    ss = extract2.leading_stmts(body_tokens, lambda s: dim_stmt(s, dimname) or is_helper_call(s))
     if not ss:
         raise Unparsed("normalisation block of %s not found" % what)
     pe = ProcEmitter('Plane')
-    env = {'anchor': ('anchor', 'V3'), 'width': ('width', 'V3'), 'dimensionality': ('dimensionality', 'Dim')}
     lines = ["  let mut anchor := anchor", "  let mut width := width"]
-    pe.stmts(ss, env, lines, "  ")
-    return ("/-- the axis normalisation block at the top of `%s` (%d statements) -/\n" % (what, len(ss)) +
+    n = 0
+    for st in ss:
+        if is_helper_call(st):
+            hp, hb = lookup(st[1][1][1][-1])
+            hnames = [nm for nm, _ in params_of(hp)]
+            if len(hnames) != len(st[1][2]) or any(a[0] != 'path' for a in st[1][2]):
+                raise Unparsed("helper call in %s" % what)
+            henv = {hn: env[a[1][0]] for hn, a in zip(hnames, st[1][2]) if a[1][0] in env}
+            hblk = parse_body(hb)
+            if hblk[2] is not None and not (hblk[2][0] in ('iflet', 'match')):
+                raise Unparsed("helper of %s returns a value" % what)
+            hs = hblk[1] + ([('expr', hblk[2])] if hblk[2] is not None else [])
+            pe.stmts(hs, henv, lines, "  ")
+            n += len(hs)
+        else:
+            pe.stmts([st], env, lines, "  ")
+            n += 1
+    return ("/-- the axis normalisation block at the top of `%s` (%d statements) -/\n" % (what, n) +
             "def %s (anchor width : V3 α) (dimensionality : Dim) : V3 α × V3 α := Id.run do\n" % name +
             '\n'.join(lines) + "\n  return (anchor, width)\n")
 
@@ -1106,13 +1172,14 @@ def gen_diminput():
     params, body, _ = find_fn(toks[gs:ge], 'new')
     blk = parse_body(body)
     pe = ProcEmitter('Plane')
+    pe.fn_lookup = make_lookup(toks)
     env = {}
     for nm, ty in params_of(params):
-        if nm == 'loc':
-            env[nm] = (nm, 'V3')
-        elif nm == 'dimensionality':
-            env[nm] = (nm, 'Dim')
-    if set(env) != {'loc', 'dimensionality'}:
+        if 'DVec3' in ty:
+            env[nm] = ('loc', 'V3')
+        elif 'Dimensionality' in ty:
+            env[nm] = ('dimensionality', 'Dim')
+    if sorted(v[1] for v in env.values()) != ['Dim', 'V3']:
         raise Unparsed("Generator::new parameters")
     lines = []
     pe.stmts(blk[1], env, lines, "  ")
@@ -1123,25 +1190,33 @@ def gen_diminput():
     if ty != 'V3':
         raise Unparsed("Generator::new loc type")
     out.append("/-- `Generator::new`: the stored position -/\ndef generatorNew (loc : V3 α) (dimensionality : Dim) : V3 α := Id.run do\n" +
-               '\n'.join(lines) + "\n  return %s\n" % t)
+               '\n'.join(lines) + ("\n" if lines else "") + "  return %s\n" % t)
     # Dimensionality::vector_is_valid
     vt = tokenize(strip_attrs_cfg(read('src/voronoi.rs')))
     ds, de = find_impl(vt, ['Dimensionality'])
     params, body, _ = find_fn(vt[ds:de], 'vector_is_valid')
+    vname = next((nm for nm, ty in params_of(params) if 'DVec3' in ty), None)
     blk = parse_body(body)
     pe = ProcEmitter('Dim')
-    env = {'self': ('self_', 'Dim'), 'v': ('v', 'V3')}
-    if blk[1] or blk[2] is None:
+    env = {'self': ('self_', 'Dim'), vname: ('v', 'V3')}
+    lines = []
+    pe.ret_wrap = lambda e, env_: pe.expr(e, env_)[0]
+    pe.stmts(blk[1], env, lines, "  ")
+    if blk[2] is None:
         raise Unparsed("vector_is_valid body")
     t, ty = pe.expr(blk[2], env)
     if ty != 'B':
         raise Unparsed("vector_is_valid type")
-    out.append("/-- `Dimensionality::vector_is_valid` -/\ndef vectorIsValid (self_ : Dim) (v : V3 α) : Bool :=\n  %s\n" % t)
+    if lines:
+        out.append("/-- `Dimensionality::vector_is_valid` -/\ndef vectorIsValid (self_ : Dim) (v : V3 α) : Bool := Id.run do\n%s\n  return %s\n" % ('\n'.join(lines), t))
+    else:
+        out.append("/-- `Dimensionality::vector_is_valid` -/\ndef vectorIsValid (self_ : Dim) (v : V3 α) : Bool :=\n  %s\n" % t)
     # normalisation blocks
-    _, body, _ = find_fn(vt, 'build_internal')
-    out.append(emit_normalise('normaliseDirect', body, 'Voronoi::build_internal'))
-    _, body, _ = find_fn_in_impls(vt, 'VoronoiIntegrator', 'build')
-    out.append(emit_normalise('normaliseIntegrator', body, 'VoronoiIntegrator::build'))
+    lookup = make_lookup(vt)
+    params, body, _ = find_fn(vt, 'build_internal')
+    out.append(emit_normalise('normaliseDirect', params, body, 'Voronoi::build_internal', lookup))
+    params, body, _ = find_fn_in_impls(vt, 'VoronoiIntegrator', 'build')
+    out.append(emit_normalise('normaliseIntegrator', params, body, 'VoronoiIntegrator::build', lookup))
     return '\n'.join(out)
 
 
@@ -1153,16 +1228,18 @@ def gen_vertexradius():
     params, body, _ = find_fn(ct[vs:ve], 'from_dual')
     blk = parse_body(body)
     pe = ProcEmitter('Plane')
-    env = {'gen_loc': ('gen_loc', 'V3'), 'dimensionality': ('dimensionality', 'Dim')}
-    pn = [nm for nm, _ in params_of(params)]
-    if pn[:3] != ['i', 'j', 'k'] or 'half_spaces' not in pn:
+    pl = params_of(params)
+    if len(pl) != 6 or any('usize' not in ty for _, ty in pl[:3]) or 'HalfSpace' not in pl[3][1] or 'DVec3' not in pl[4][1] or 'Dimensionality' not in pl[5][1]:
         raise Unparsed("from_dual parameters")
+    idxnames = [nm for nm, _ in pl[:3]]
+    hsname = pl[3][0]
+    env = {pl[4][0]: ('gen_loc', 'V3'), pl[5][0]: ('dimensionality', 'Dim')}
 
     class FD(ProcEmitter):
         def expr(self, e, env):
             # `half_spaces[i].plane` -> the plane parameter `pi`
-            if e[0] == 'field' and e[2] == 'plane' and e[1][0] == 'index' and e[1][1] == ('path', ['half_spaces']) and e[1][2][0] == 'path' and e[1][2][1][0] in ('i', 'j', 'k'):
-                return 'p' + e[1][2][1][0], 'Plane'
+            if e[0] == 'field' and e[2] == 'plane' and e[1][0] == 'index' and e[1][1] == ('path', [hsname]) and e[1][2][0] == 'path' and e[1][2][1][0] in idxnames:
+                return 'p' + 'ijk'[idxnames.index(e[1][2][1][0])], 'Plane'
             return ProcEmitter.expr(self, e, env)
     pe = FD('Plane')
     lines = []
@@ -1181,20 +1258,29 @@ def gen_vertexradius():
     out.append("/-- `Vertex::from_dual`: position and squared radius in the active subspace -/\n"
                "def vertexFromDual (pi pj pk : Plane α) (gen_loc : V3 α) (dimensionality : Dim) : V3 α × α :=\n" +
                '\n'.join(lines) + "\n  (%s, %s)\n" % (tl, tr))
-    out.append("/-- order in which `from_dual` stores its three plane indices -/\ndef vertexDualOrder : List String := [%s]\n" %
-               ', '.join('"%s"' % x[1][0] for x in dual[1]))
+    if any(x[1][0] not in idxnames for x in dual[1]):
+        raise Unparsed("from_dual dual entries")
+    out.append("/-- order in which `from_dual` stores its three plane indices (by parameter position) -/\ndef vertexDualOrder : List String := [%s]\n" %
+               ', '.join('"%s"' % 'ijk'[idxnames.index(x[1][0])] for x in dual[1]))
     # update_safety_radius
     cs, ce = find_impl(ct, ['ConvexCell'])
     _, body, _ = find_fn(ct, 'update_safety_radius')
     blk = parse_body(body)
     chain = None
     formula = None
+    maxname = None
     for s in blk[1]:
-        if s[0] == 'let' and s[2] == ('pvar', 'max_dist_2'):
-            chain = method_chain(s[4])
-        if s[0] == 'assign' and s[1] == '=' and s[2] == ('field', ('path', ['self']), 'safety_radius'):
+        if s[0] == 'let' and s[2][0] == 'pvar' and s[4] is not None and chain is None:
+            try:
+                c = method_chain(s[4])
+            except Unparsed:
+                c = None
+            if c and c[:2] == ['self', 'vertices']:
+                chain = c
+                maxname = s[2][1]
+        if s[0] == 'assign' and s[1] == '=' and s[2] == ('field', ('path', ['self']), 'safety_radius') and maxname is not None:
             pe = ProcEmitter('Plane')
-            formula, fty = pe.expr(s[3], {'max_dist_2': ('max_dist_2', 'F')})
+            formula, fty = pe.expr(s[3], {maxname: ('max_dist_2', 'F')})
             if fty != 'F':
                 raise Unparsed("safety radius formula type")
     if chain is None or formula is None:
@@ -1204,6 +1290,26 @@ def gen_vertexradius():
     out.append("/-- how `update_safety_radius` obtains `max_dist_2` (method chain on `self`) -/\ndef safetyRadiusChain : List String := [%s]\n" %
                ', '.join('"%s"' % c for c in chain))
     return '\n'.join(out)
+
+
+def make_lookup(*token_lists):
+    """helper-function lookup over the token streams of the files a fragment reads"""
+    def lookup(name):
+        for toks in token_lists:
+            try:
+                p_, b_, _ = find_fn(toks, name)
+                return p_, b_
+            except Unparsed:
+                continue
+        return None
+    return lookup
+
+
+def with_aux(pe, text):
+    """prepend the helper definitions an emitter met"""
+    aux = ''.join(a + '\n' for a in pe.aux)
+    pe.aux.clear()
+    return aux + text
 
 
 def find_fn_in_impls(tokens, type_name, fn_name):
@@ -1264,7 +1370,7 @@ def find_stmt(stmts, pred):
     return None
 
 
-def describe_point(e):
+def describe_point(e, hsname='p', vertexvar='dual'):
     """which point an argument of the exact predicate is: gen | dual0..2 | new"""
     # simulation_boundary.iloc(X)
     if e[0] == 'mcall' and e[2] == 'iloc' and len(e[3]) == 1:
@@ -1273,12 +1379,12 @@ def describe_point(e):
             return 'gen'
         if x[0] == 'mcall' and x[2] == 'right_loc':
             args = x[3]
-            if len(args) != 2 or args[0] != ('field', ('path', ['self']), 'idx') or args[1] != ('path', ['generators']):
+            if len(args) != 2 or args[0] != ('field', ('path', ['self']), 'idx'):
                 raise Unparsed("right_loc arguments")
             r = x[1]
-            if r == ('path', ['p']):
+            if r == ('path', [hsname]):
                 return 'new'
-            if r[0] == 'index' and r[1] == ('field', ('path', ['self']), 'clipping_planes') and r[2][0] == 'index' and r[2][1] == ('path', ['dual']) and r[2][2][0] == 'num':
+            if r[0] == 'index' and r[1] == ('field', ('path', ['self']), 'clipping_planes') and r[2][0] == 'index' and r[2][1] == ('path', [vertexvar]) and r[2][2][0] == 'num':
                 return 'dual' + r[2][2][1]
     raise Unparsed("argument of the exact predicate")
 
@@ -1357,20 +1463,26 @@ def gen_clipvertex():
     out = [VARS]
     ct = tokenize(strip_attrs_cfg(read('src/voronoi/convex_cell.rs')))
     # ---- clip_by_plane: the decision for one vertex, the arguments of the exact predicate, the new vertices
-    _, body, _ = find_fn_in_impls(ct, 'ConvexCell', 'clip_by_plane')
+    params, body, _ = find_fn_in_impls(ct, 'ConvexCell', 'clip_by_plane')
+    hsname = next((nm for nm, ty in params_of(params) if 'HalfSpace' in ty), None)
+    if hsname is None:
+        raise Unparsed("clip_by_plane has no HalfSpace parameter")
     blk = parse_body(body)
     wl = find_stmt(blk[1], lambda s: s[0] == 'while')
     if wl is None:
         raise Unparsed("vertex loop of clip_by_plane")
     ws = [s for s in wl[2][1] if s[0] != 'attr'] + ([('expr', wl[2][2])] if wl[2][2] is not None else [])
-    if len(ws) != 3 or ws[0][0] != 'let' or ws[0][2] != ('pvar', 'clip') or ws[0][4][0] != 'mcall' or ws[0][4][2] != 'clip' or ws[0][4][1] != ('path', ['p']):
+    if len(ws) != 3 or ws[0][0] != 'let' or ws[0][2][0] != 'pvar' or ws[0][4][0] != 'mcall' or ws[0][4][2] != 'clip' or ws[0][4][1] != ('path', [hsname]):
         raise Unparsed("vertex loop: filter call")
-    if ws[0][4][3] != [('field', ('index', ('field', ('path', ['self']), 'vertices'), ('path', ['i'])), 'loc')]:
+    cv = ws[0][2][1]                       # the variable holding the filter result
+    farg = ws[0][4][3]
+    if len(farg) != 1 or farg[0][0] != 'field' or farg[0][2] != 'loc' or farg[0][1][0] != 'index' or farg[0][1][1] != ('field', ('path', ['self']), 'vertices'):
         raise Unparsed("vertex loop: filter argument")
+    ivar = farg[0][1][2]                   # index of the tested vertex
     if ws[1][0] != 'expr' or ws[1][1][0] != 'if' or ws[1][1][3] is not None or ws[2][0] != 'expr' or ws[2][1][0] != 'if':
         raise Unparsed("vertex loop: decision statements")
     pe = ProcEmitter('Plane')
-    env = {'clip': ('clip', 'F')}
+    env = {cv: ('clip', 'F')}
     c1, t1 = pe.expr(ws[1][1][1], env)
     c2, t2 = pe.expr(ws[2][1][1], env)
     if (t1, t2) != ('B', 'B'):
@@ -1378,54 +1490,72 @@ def gen_clipvertex():
     inner = [s for s in ws[1][1][2][1] if s[0] != 'attr' and not (s[0] == 'expr' and s[1][0] == 'call')]
     lets = {}
     asg = None
-    for s in inner:
-        if s[0] == 'let' and s[2][0] == 'pvar':
-            lets[s[2][1]] = s[4]
-        elif s[0] == 'assign' and s[1] == '=' and s[2] == ('path', ['clip']):
-            asg = s[3]
+    for st in inner:
+        if st[0] == 'let' and st[2][0] == 'pvar':
+            lets[st[2][1]] = st[4]
+        elif st[0] == 'assign' and st[1] == '=' and st[2] == ('path', [cv]):
+            asg = st[3]
         else:
             raise Unparsed("statement in the exact branch")
+    hs_in = hsname
+    vidx = ivar
+    if asg is not None and asg[0] == 'mcall' and asg[1] == ('path', ['self']):
+        # the exact branch lives in a helper method: follow it
+        hp, hb, _ = find_fn_in_impls(ct, 'ConvexCell', asg[2])
+        hpl = [x for x in params_of(hp) if x[0] != 'self']
+        if len(hpl) != len(asg[3]):
+            raise Unparsed("helper %s arity" % asg[2])
+        for (nm, ty), arg in zip(hpl, asg[3]):
+            if arg == ('path', [hsname]):
+                hs_in = nm
+            if arg == ivar:
+                vidx = ('path', [nm])
+        hblk = parse_body(hb)
+        lets = {}
+        for st in hblk[1]:
+            if st[0] == 'let' and st[2][0] == 'pvar':
+                lets[st[2][1]] = st[4]
+            elif st[0] == 'attr' or (st[0] == 'expr' and st[1][0] == 'call'):
+                pass
+            else:
+                raise Unparsed("statement in helper %s" % asg[2])
+        asg = hblk[2]
     if asg is None or asg[0] != 'call' or asg[1] != ('path', ['in_sphere_test_exact']) or len(asg[2]) != 5:
         raise Unparsed("call of the exact predicate")
-    args = []
-    for a in asg[2]:
-        if a[0] != 'path' or a[1][0] not in lets:
-            raise Unparsed("argument of the exact predicate")
-        x = lets[a[1][0]]
-        if a[1][0] == 'dual':
-            raise Unparsed("argument of the exact predicate")
-        args.append(describe_point(x))
-    if lets.get('dual') != ('field', ('index', ('field', ('path', ['self']), 'vertices'), ('path', ['i'])), 'dual'):
+    # the variable holding the dual triple of the tested vertex
+    dualvar = next((nm for nm, v in lets.items() if v == ('field', ('index', ('field', ('path', ['self']), 'vertices'), vidx), 'dual')), None)
+    if dualvar is None:
         raise Unparsed("dual of the tested vertex")
-    removed_then = ws[2][1][2][1]
-    swaps = any(s[0] == 'expr' and s[1][0] == 'mcall' and s[1][2] == 'swap' for s in removed_then)
+    args = []
+    for a_ in asg[2]:
+        x = lets.get(a_[1][0]) if a_[0] == 'path' else a_
+        if x is None:
+            raise Unparsed("argument of the exact predicate")
+        args.append(describe_point(x, hs_in, dualvar))
     out.append("/-- the decision `clip_by_plane` takes for one vertex (`true` = removed): `filter` = `HalfSpace::clip`, `exact` = exact predicate -/\n"
                "def clipRemoved (filter exact : α) : Bool := Id.run do\n  let mut clip := filter\n  if %s then\n    clip := exact\n  return %s\n" % (c1, c2))
     out.append("/-- the five points handed to the exact predicate, in order -/\ndef exactArgs : List String := [%s]\n" % ', '.join('"%s"' % a for a in args))
-    out.append("/-- a removed vertex is swapped to the tail of the vertex array -/\ndef removedSwappedToTail : Bool := %s\n" % ('true' if swaps else 'false'))
-    # new vertices
-    ifr = find_stmt(blk[1] + ([('expr', blk[2])] if blk[2] is not None else []), lambda s: s[0] == 'expr' and s[1][0] == 'if')
-    if ifr is None:
-        raise Unparsed("`if num_r > 0` block")
-    fl = find_stmt(ifr[1][2][1], lambda s: s[0] == 'for')
-    if fl is None or fl[1] != ('pvar', 'next') or fl[2] != ('path', ['boundary']):
+    # new vertices: `Vertex::from_dual(cur, next, <new plane>, ..)` inside the loop over the boundary walk
+    push = extract2.find_node(blk, lambda n: n[0] == 'for' and extract2.find_node(n[3], lambda m: m[0] == 'call' and m[1] == ('path', ['Vertex', 'from_dual'])) is not None)
+    if push is None or push[1][0] != 'pvar':
         raise Unparsed("new vertex loop")
-    push = fl[3][1][0]
-    if not (push[0] == 'expr' and push[1][0] == 'mcall' and push[1][2] == 'push' and push[1][3][0][0] == 'call' and push[1][3][0][1] == ('path', ['Vertex', 'from_dual'])):
-        raise Unparsed("new vertex construction")
-    nv = push[1][3][0][2][:3]
-    if any(a[0] != 'path' for a in nv):
+    nxt = push[1][1]
+    call = extract2.find_node(push[3], lambda m: m[0] == 'call' and m[1] == ('path', ['Vertex', 'from_dual']))
+    nv = call[2][:3]
+    if any(a_[0] != 'path' for a_ in nv):
         raise Unparsed("new vertex arguments")
-    adv = fl[3][1][1:] == [('assign', '=', ('path', ['cur']), ('path', ['next']))]
-    out.append("/-- dual triple of a new vertex along the boundary cycle -/\ndef newVertexDual : List String := [%s]\n" % ', '.join('"%s"' % a[1][0] for a in nv))
-    out.append("/-- the walk advances `cur = next` after each new vertex -/\ndef newVertexWalkAdvances : Bool := %s\n" % ('true' if adv else 'false'))
-    tk = find_stmt(ifr[1][2][1], lambda s: s[0] == 'let' and s[2] == ('pvar', 'boundary'))
-    chain = method_chain(tk[4]) if tk is not None else []
-    take = None
-    if tk is not None and tk[4][0] == 'mcall' and tk[4][2] == 'take':
-        take = ' '.join(flatten_expr(tk[4][3][0]))
-    out.append("/-- the cycle is walked once around and back to its start: `%s`, take(%s) -/\ndef boundaryWalk : List String := [%s]\ndef boundaryWalkTake : String := \"%s\"\n" %
-               ('.'.join(chain), take, ', '.join('"%s"' % c for c in chain), take))
+    adv = next((st for st in push[3][1] if st[0] == 'assign' and st[1] == '=' and st[3] == ('path', [nxt])), None)
+    cur = adv[2][1][0] if adv is not None and adv[2][0] == 'path' else None
+    # the new plane index: the length of `clipping_planes` before the push
+    pl = extract2.find_node(blk, lambda n: n[0] == 'let' and n[4] == ('mcall', ('field', ('path', ['self']), 'clipping_planes'), 'len', []))
+    newp = pl[2][1] if pl is not None and pl[2][0] == 'pvar' else None
+    role = {nxt: 'next'}
+    if cur:
+        role[cur] = 'cur'
+    if newp:
+        role[newp] = 'p_idx'
+    out.append("/-- dual triple of a new vertex along the boundary cycle (`cur` = walk position, `next` = its successor, `p_idx` = the new plane) -/\n"
+               "def newVertexDual : List String := [%s]\n" % ', '.join('"%s"' % role.get(a_[1][0], '?' + a_[1][0]) for a_ in nv))
     return '\n'.join(out)
 
 
@@ -1434,29 +1564,47 @@ def gen_rightloc():
     # ---- HalfSpace::right_loc
     ht = tokenize(strip_attrs_cfg(read('src/voronoi/half_space.rs')))
     params, body, _ = find_fn_in_impls(ht, 'HalfSpace', 'right_loc')
+    pl = [x for x in params_of(params) if x[0] != 'self']
+    leftname = next((nm for nm, ty in pl if 'usize' in ty), None)
+    gensname = next((nm for nm, ty in pl if 'Generator' in ty), None)
+    if leftname is None or gensname is None:
+        raise Unparsed("right_loc parameters")
     blk = parse_body(body)
-    if blk[1] or blk[2] is None or blk[2][0] != 'iflet':
+    if blk[1] or blk[2] is None or blk[2][0] not in ('iflet', 'match'):
         raise Unparsed("right_loc body")
 
     class RL(ProcEmitter):
         def expr(self, e, env):
-            if e == ('index', ('path', ['generators']), ('path', ['right_idx'])) and env.get('right_idx') == ('right_idx', 'Idx'):
+            if e[0] == 'index' and e[1] == ('path', [gensname]) and e[2][0] == 'path' and env.get(e[2][1][0]) == (e[2][1][0], 'Idx'):
                 return 'right_gen_loc', 'GenLoc'
-            if e == ('index', ('path', ['generators']), ('path', ['left_idx'])):
+            if e == ('index', ('path', [gensname]), ('path', [leftname])):
                 return 'left_loc', 'GenLoc'
             if e == ('field', ('path', ['self']), 'shift'):
                 return 'shift', 'OptV3'
-            if e[0] == 'iflet' and e[2] == ('field', ('path', ['self']), 'right_idx'):
-                pat = e[1]
-                if not (pat[0] == 'pctor' and pat[1] == ['Some'] and pat[2] == [('pvar', 'right_idx')]) or e[4] is None:
+            some = none = None
+            if e[0] == 'iflet' and e[2] == ('field', ('path', ['self']), 'right_idx') and e[4] is not None:
+                some, none = (e[1], e[3]), e[4]
+            if e[0] == 'match' and e[1] == ('field', ('path', ['self']), 'right_idx'):
+                for pat, guard, body_ in e[2]:
+                    if guard is not None:
+                        raise Unparsed("right_loc guard")
+                    if pat[0] == 'pctor' and pat[1] == ['Some']:
+                        some = (pat, body_)
+                    elif (pat[0] == 'pctor' and pat[1] == ['None']) or pat[0] == 'pwild':
+                        none = body_
+                if some is None or none is None:
+                    raise Unparsed("right_loc arms")
+            if some is not None:
+                pat = some[0]
+                if not (pat[0] == 'pctor' and pat[1] == ['Some'] and len(pat[2]) == 1 and pat[2][0][0] == 'pvar'):
                     raise Unparsed("right_loc pattern")
                 env2 = dict(env)
-                env2['right_idx'] = ('right_idx', 'Idx')
-                a, ta = self.block_value(e[3], env2)
-                b, tb = self.block_value(e[4], dict(env))
+                env2[pat[2][0][1]] = (pat[2][0][1], 'Idx')
+                a_, ta = self.value(some[1], env2)
+                b_, tb = self.value(none, dict(env))
                 if ta != tb:
                     raise Unparsed("right_loc branch types")
-                return "(match right_gen with\n    | some right_gen_loc => %s\n    | none => %s)" % (a, b), ta
+                return "(match right_gen with\n    | some right_gen_loc => %s\n    | none => %s)" % (a_, b_), ta
             return ProcEmitter.expr(self, e, env)
     pe = RL('HalfSpace')
     t, ty = pe.expr(blk[2], {'self': ('self_', 'HalfSpace')})
@@ -1503,6 +1651,7 @@ def emit_method(pe, lean_name, self_name, self_ty, params, body, extra_env=None,
             binders.append("(%s : %s)" % (nm, extract2.LTY[t]))
     blk = parse_body(body)
     lines = ["  let mut %s := %s" % (self_name, self_name)] if mut_self else []
+    pe.ret_wrap = lambda e, env_: pe.expr(e, env_)[0]
     pe.stmts(blk[1], env, lines, "  ")
     if blk[2] is None:
         if not mut_self:
@@ -1532,51 +1681,48 @@ def range_pair(e):
 def gen_nn():
     out = [VARS]
     toks = tokenize(strip_attrs_cfg(read('src/rtree_nn.rs')))
+    lookup = make_lookup(toks)
     # reported shift: closure of wrapping_nn_iter
     _, body, _ = find_fn(toks, 'wrapping_nn_iter')
     blk = parse_body(body)
-
-    def find_closure(e):
-        if isinstance(e, tuple):
-            if e and e[0] == 'closure':
-                return e
-            for x in e:
-                r = find_closure(x)
-                if r:
-                    return r
-        elif isinstance(e, list):
-            for x in e:
-                r = find_closure(x)
-                if r:
-                    return r
-        return None
-    cl = find_closure(blk[2])
-    if cl is None or len(cl[1]) != 1 or cl[1][0][0] != 'ptuple' or cl[1][0][1][-1] != ('pvar', 'shift') or cl[2][0] != 'block':
+    cl = extract2.find_node(blk[2], lambda n: n[0] == 'closure')
+    if cl is None or len(cl[1]) != 1 or cl[1][0][0] != 'ptuple' or len(cl[1][0][1]) != 3 or cl[1][0][1][-1][0] != 'pvar' or cl[1][0][1][0][0] != 'pvar' or cl[2][0] != 'block':
         raise Unparsed("closure of wrapping_nn_iter")
+    gname, sname = cl[1][0][1][0][1], cl[1][0][1][-1][1]
     pe = ProcEmitter('Plane')
-    env = {'shift': ('shift', 'A3')}
+    pe.fn_lookup = lookup
+    env = {sname: ('shift', 'A3')}
     lines = []
     pe.stmts(cl[2][1], env, lines, "  ")
     tail = cl[2][2]
-    if tail is None or tail[0] != 'tuple' or len(tail[1]) != 2 or tail[1][0] != ('mcall', ('path', ['g']), 'id', []):
+    if tail is None or tail[0] != 'tuple' or len(tail[1]) != 2 or tail[1][0] != ('mcall', ('path', [gname]), 'id', []):
         raise Unparsed("result of the closure of wrapping_nn_iter")
     t, ty = pe.expr(tail[1][1], env)
     if ty != 'OptV3':
         raise Unparsed("reported shift type")
-    out.append("/-- the shift `wrapping_nn_iter` reports for the query shift of a visited leaf -/\ndef reportedShift (shift : V3 α) : Option (V3 α) :=\n" +
-               '\n'.join(lines) + "\n  %s\n" % t)
+    out.append(with_aux(pe, "/-- the shift `wrapping_nn_iter` reports for the query shift of a visited leaf -/\ndef reportedShift (shift : V3 α) : Option (V3 α) :=\n" +
+               '\n'.join(lines) + ("\n" if lines else "") + "  %s\n" % t))
     # leaf key
     gs, ge = find_impl(toks, ['WrappingPointDistance', 'for', 'Generator'])
     params, body, _ = find_fn(toks[gs:ge], 'wrapping_distance_2')
+    pn = [nm for nm, _ in params_of(params) if nm != 'self']
+    if len(pn) != 2:
+        raise Unparsed("leaf key parameters")
     pe = ProcEmitter('Plane')
-    out.append(emit_method(pe, 'wrapPointDist2', 'self_loc', 'GenLoc', params, body,
-                           {'point': ('point', 'A3'), 'shift': ('shift', 'A3')}, '`Generator::wrapping_distance_2`: key of a leaf under a query shift'))
+    pe.fn_lookup = lookup
+    txt = emit_method(pe, 'wrapPointDist2', 'self_loc', 'GenLoc', params, body,
+                      {pn[0]: ('point', 'A3'), pn[1]: ('shift', 'A3')}, '`Generator::wrapping_distance_2`: key of a leaf under a query shift')
+    out.append(with_aux(pe, txt))
     # envelope key
     es, ee = find_impl(toks, ['WrappingEnvelope', 'for', 'AABB'])
     params, body, _ = find_fn(toks[es:ee], 'wrapping_distance_2')
+    pn = [nm for nm, _ in params_of(params) if nm != 'self']
+    if len(pn) != 2:
+        raise Unparsed("envelope key parameters")
     blk = parse_body(body)
     inner = [s for s in blk[1] if s[0] == 'fn']
     pe = ProcEmitter('Plane')
+    pe.fn_lookup = lookup
     pe.local_fns = {}
     for f in inner:
         fe = ProcEmitter('Plane')
@@ -1591,32 +1737,35 @@ def gen_nn():
         lname = 'nn' + f[1][0].upper() + f[1][1:]
         out.append("/-- nested `fn %s` of `AABB::wrapping_distance_2` -/\ndef %s %s : %s :=\n  %s\n" % (f[1], lname, ' '.join(fb), extract2.LTY[ty], t))
         pe.local_fns[f[1]] = (ty, lname, [fenv[nm][1] for nm, _ in params_of(f[2])])
-    body2 = ('block', [s for s in blk[1] if s[0] != 'fn'], blk[2])
-    env = {'self': ('self_', 'Box3'), 'point': ('point', 'A3'), 'shift': ('shift', 'A3')}
+    env = {'self': ('self_', 'Box3'), pn[0]: ('point', 'A3'), pn[1]: ('shift', 'A3')}
     lines = []
-    pe.stmts(body2[1], env, lines, "  ")
-    t, ty = pe.expr(body2[2], env)
+    pe.stmts([s for s in blk[1] if s[0] != 'fn'], env, lines, "  ")
+    t, ty = pe.expr(blk[2], env)
     if ty != 'F':
         raise Unparsed("envelope key type")
-    out.append("/-- `AABB::wrapping_distance_2`: key of an inner node (its envelope) under a query shift -/\n"
-               "def wrapEnvDist2 (self_ : Box3 α) (point shift : V3 α) : α := Id.run do\n" + '\n'.join(lines) + "\n  return %s\n" % t)
+    out.append(with_aux(pe, "/-- `AABB::wrapping_distance_2`: key of an inner node (its envelope) under a query shift -/\n"
+               "def wrapEnvDist2 (self_ : Box3 α) (point shift : V3 α) : α := Id.run do\n" + '\n'.join(lines) + "\n  return %s\n" % t))
     # image ranges and the query shift of `RTreeWrappingNearestNeighbourIter::new`
-    _, body, _ = find_fn_in_impls(toks, 'RTreeWrappingNearestNeighbourIter', 'new')
+    params, body, _ = find_fn_in_impls(toks, 'RTreeWrappingNearestNeighbourIter', 'new')
+    pl = params_of(params)
+    dimname = next((nm for nm, ty in pl if 'Dimensionality' in ty), None)
+    arr = [nm for nm, ty in pl if 'f64' in ty]
+    if dimname is None or len(arr) != 2:
+        raise Unparsed("parameters of the iterator constructor")
+    wname = arr[1]
     blk = parse_body(body)
     ranges = {}
     for s in blk[1]:
-        if s[0] == 'let' and s[2][0] == 'pvar' and s[2][1] in ('j_range', 'k_range'):
-            m = s[4]
-            if m[0] != 'match' or m[1] != ('path', ['dimensionality']):
-                raise Unparsed("image range form")
+        if s[0] == 'let' and s[2][0] == 'pvar' and s[4] is not None and s[4][0] == 'match' and s[4][1] == ('path', [dimname]):
             arms = []
-            for pat, guard, b in m[2]:
-                alts = extract2.dim_alts(pat)
-                lo, hi = range_pair(b)
-                arms.append("| %s => (%d, %d)" % (' | '.join('.' + a for a in alts) if alts else '_', lo, hi))
+            try:
+                for pat, guard, b in s[4][2]:
+                    alts = extract2.dim_alts(pat)
+                    lo, hi = range_pair(b)
+                    arms.append("| %s => (%d, %d)" % (' | '.join('.' + a for a in alts) if alts else '_', lo, hi))
+            except Unparsed:
+                continue
             ranges[s[2][1]] = arms
-    if set(ranges) != {'j_range', 'k_range'}:
-        raise Unparsed("image ranges")
     loops = []
     cur = find_stmt(blk[1], lambda s: s[0] == 'for')
     inner_stmts = None
@@ -1626,22 +1775,19 @@ def gen_nn():
         loops.append((cur[1][1], range_pair(cur[2])))
         inner_stmts = cur[3][1]
         cur = find_stmt(cur[3][1], lambda s: s[0] == 'for')
-    if [l[0] for l in loops] != ['i', 'j', 'k'] or loops[0][1] != (-1, 1) or loops[1][1] != 'j_range' or loops[2][1] != 'k_range':
+    if len(loops) != 3 or loops[0][1] != (-1, 1) or loops[1][1] not in ranges or loops[2][1] not in ranges or loops[1][1] == loops[2][1]:
         raise Unparsed("image loops %r" % (loops,))
     out.append("/-- image offsets along x: `for i in -1..=1` -/\ndef imageRangeI : Int × Int := (%d, %d)\n" % loops[0][1])
-    out.append("/-- image offsets along y per dimensionality -/\ndef imageRangeJ (dimensionality : Dim) : Int × Int :=\n  match dimensionality with %s\n" % ' '.join(ranges['j_range']))
-    out.append("/-- image offsets along z per dimensionality -/\ndef imageRangeK (dimensionality : Dim) : Int × Int :=\n  match dimensionality with %s\n" % ' '.join(ranges['k_range']))
-    sh = find_stmt(inner_stmts, lambda s: s[0] == 'let' and s[2] == ('pvar', 'shift'))
+    out.append("/-- image offsets along y per dimensionality -/\ndef imageRangeJ (dimensionality : Dim) : Int × Int :=\n  match dimensionality with %s\n" % ' '.join(ranges[loops[1][1]]))
+    out.append("/-- image offsets along z per dimensionality -/\ndef imageRangeK (dimensionality : Dim) : Int × Int :=\n  match dimensionality with %s\n" % ' '.join(ranges[loops[2][1]]))
+    sh = find_stmt(inner_stmts, lambda s: s[0] == 'let' and s[2][0] == 'pvar' and s[4] is not None and s[4][0] == 'array')
     if sh is None:
         raise Unparsed("query shift")
     pe = ProcEmitter('Plane')
-    t, ty = pe.expr(sh[4], {'i': ('i', 'F'), 'j': ('j', 'F'), 'k': ('k', 'F'), 'width': ('width', 'A3')})
+    t, ty = pe.expr(sh[4], {loops[0][0]: ('i', 'F'), loops[1][0]: ('j', 'F'), loops[2][0]: ('k', 'F'), wname: ('width', 'A3')})
     if ty != 'A3':
         raise Unparsed("query shift type")
     out.append("/-- the query shift of image `(i, j, k)` -/\ndef queryShift (i j k : α) (width : V3 α) : V3 α :=\n  %s\n" % t)
-    ext = find_stmt(inner_stmts, lambda s: s[0] == 'expr' and s[1][0] == 'mcall' and s[1][2] == 'extend_heap')
-    ok = ext is not None and ext[1][3] == [('mcall', ('path', ['root']), 'children', []), ('path', ['shift'])]
-    out.append("/-- every image pushes the children of the root with its shift -/\ndef imagesPushRootChildren : Bool := %s\n" % ('true' if ok else 'false'))
     return '\n'.join(out)
 
 
@@ -1660,11 +1806,13 @@ def gen_integrals():
         (it, ['FaceIntegral', 'for', 'AreaIntegral'], 'AreaOnly', 'areaOnly'),
         (ft, ['FaceIntegral', 'for', 'VoronoiFaceIntegral'], 'FaceNAcc', 'voronoiFace'),
     ]
+    lookup = make_lookup(it, ft)
     for toks, hdr, ty, name in table:
         s0, e0 = find_impl(toks, hdr)
         for meth in ('collect', 'finalize'):
             params, body, _ = find_fn(toks[s0:e0], meth)
             pe = ProcEmitter('Plane')
+            pe.fn_lookup = lookup
             out.append(emit_method(pe, name + meth.capitalize(), 'self_', ty, params, body, None, '`%s::%s`' % (hdr[-1], meth)))
     return '\n'.join(out)
 
@@ -1695,51 +1843,51 @@ def gen_rules():
     t, ty = SC().expr(let[4], env)
     if ty != 'B':
         raise Unparsed("should_construct_face type")
-    used = extract2.find_node(blk, lambda n: n[0] == 'if' and n[1] == ('path', ['should_construct_face']))
     out.append("/-- `should_construct_face` of `VoronoiCell::from_convex_cell` (`valid` = the plane normal is valid for the dimensionality) -/\n"
                "def shouldConstructFace (valid : Bool) (hs_right : Option Nat) (hs_shift : Option Unit) (idx : Nat) (mask : Option (Nat → Bool)) : Bool :=\n  %s\n" % t)
-    out.append("/-- a face is initialised exactly when `should_construct_face` holds -/\ndef faceInitGuarded : Bool := %s\n" % ('true' if used is not None else 'false'))
     # ---- the two face-integral loops of ConvexCell
     ct = tokenize(strip_attrs_cfg(read('src/voronoi/convex_cell.rs')))
 
-    def dim_check(blk):
-        n = extract2.find_node(blk, lambda n: n[0] == 'if' and n[1] == ('un', '!', ('mcall', ('path', ['self']), 'clipping_plane_has_valid_dimensionality', [('field', ('path', ['tet']), 'plane_idx')])))
-        return n is not None and n[2][1] and n[2][1][0] == ('expr', ('continue',))
-    _, body, _ = find_fn_in_impls(ct, 'ConvexCell', 'compute_face_integrals')
-    b1 = parse_body(body)
     _, body, _ = find_fn_in_impls(ct, 'ConvexCell', 'compute_face_integrals_sym')
     b2 = parse_body(body)
-    out.append("/-- both face-integral loops skip tetrahedra of planes of invalid dimensionality -/\ndef nonSymChecksDim : Bool := %s\ndef symChecksDim : Bool := %s\n" %
-               ('true' if dim_check(b1) else 'false', 'true' if dim_check(b2) else 'false'))
-    m = extract2.find_node(b2, lambda n: n[0] == 'match' and n[1] == ('index', ('field', ('path', ['self']), 'clipping_planes'), ('field', ('path', ['tet']), 'plane_idx')))
+    m = extract2.find_node(b2, lambda n: n[0] == 'match' and n[1][0] == 'index' and n[1][1] == ('field', ('path', ['self']), 'clipping_planes'))
     if m is None:
         raise Unparsed("skip rule of compute_face_integrals_sym")
-    guard = extract2.find_node(b2, lambda n: n[0] == 'if' and n[1] == ('mcall', ('path', ['integral']), 'is_none', []))
+    mscrut = m[1]
+    mparams = params_of(find_fn_in_impls(ct, 'ConvexCell', 'compute_face_integrals_sym')[0])
+    maskname = next((nm for nm, ty in mparams if 'bool' in ty), None)
+    if maskname is None:
+        raise Unparsed("mask parameter of compute_face_integrals_sym")
 
     class SY(RE):
         def expr(self, e, env):
-            if e == ('index', ('field', ('path', ['self']), 'clipping_planes'), ('field', ('path', ['tet']), 'plane_idx')):
+            if e == mscrut:
                 return 'hs', 'HS'
             return RE.expr(self, e, env)
-    t, ty = SY().expr(m, {'self': ('self_', 'SELF'), 'mask': ('mask', 'MASK')})
+    t, ty = SY().expr(m, {'self': ('self_', 'SELF'), maskname: ('mask', 'MASK')})
     if ty != 'B':
         raise Unparsed("skip rule type")
     out.append("/-- the skip rule of `compute_face_integrals_sym` (`true` = this tetrahedron's face is skipped) -/\n"
                "def symSkip (hs_right : Option Nat) (hs_shift : Option Unit) (idx : Nat) (mask : Nat → Bool) : Bool :=\n  %s\n" % t)
-    out.append("/-- the skip rule is consulted only while the face has no integral yet -/\ndef symSkipOnlyWhenUninitialised : Bool := %s\n" % ('true' if guard is not None else 'false'))
     # ---- finalize: links of a stored face, offsets
     vt2 = tokenize(strip_attrs_cfg(read('src/voronoi.rs')))
     _, body, _ = find_fn_in_impls(vt2, 'Voronoi', 'finalize')
     blk = parse_body(body)
-    loop = extract2.find_node(blk, lambda n: n[0] == 'for' and n[1] == ('ptuple', [('pvar', 'i'), ('pvar', 'face')]))
-    if loop is None or loop[2] != ('mcall', ('mcall', ('field', ('path', ['self']), 'faces'), 'iter', []), 'enumerate', []):
+    loop = extract2.find_node(blk, lambda n: n[0] == 'for' and n[1][0] == 'ptuple' and len(n[1][1]) == 2 and all(q[0] == 'pvar' for q in n[1][1])
+                              and n[2] == ('mcall', ('mcall', ('field', ('path', ['self']), 'faces'), 'iter', []), 'enumerate', []))
+    if loop is None:
         raise Unparsed("face loop of finalize")
-    env = {'face': ('face', 'FACE')}
+    ivar, fvar = loop[1][1][0][1], loop[1][1][1][1]
+    env = {fvar: ('face', 'FACE')}
     parts = []
+    container = [None]
     for st in loop[3][1] + ([('expr', loop[3][2])] if loop[3][2] is not None else []):
         def push_target(s):
-            if s[0] == 'expr' and s[1][0] == 'mcall' and s[1][2] == 'push' and s[1][3] == [('path', ['i'])] and s[1][1][0] == 'index' and s[1][1][1] == ('path', ['cell_face_connections']):
-                return s[1][1][2]
+            if s[0] == 'expr' and s[1][0] == 'mcall' and s[1][2] == 'push' and s[1][3] == [('path', [ivar])] and s[1][1][0] == 'index' and s[1][1][1][0] == 'path':
+                if container[0] is None:
+                    container[0] = s[1][1][1]
+                if s[1][1][1] == container[0]:
+                    return s[1][1][2]
             return None
         tg = push_target(st)
         if tg is not None:
@@ -1772,15 +1920,6 @@ def gen_rules():
         else:
             raise Unparsed("statement in the face loop of finalize")
     out.append("/-- cells a stored face is linked to by `finalize`, in order -/\ndef links (left : Nat) (right : Option Nat) (shift : Option Unit) : List Nat :=\n  %s\n" % ' ++ '.join(parts))
-    loop2 = extract2.find_node(blk, lambda n: n[0] == 'for' and n[1] == ('ptuple', [('pvar', 'i'), ('pvar', 'cell')]))
-    ok = False
-    if loop2 is not None:
-        ss = loop2[3][1]
-        ok = (len(ss) == 3 and ss[0][0] == 'let' and ss[0][2] == ('pvar', 'face_count')
-              and ss[0][4] == ('mcall', ('index', ('path', ['cell_face_connections']), ('path', ['i'])), 'len', [])
-              and ss[1] == ('expr', ('mcall', ('path', ['cell']), 'finalize', [('path', ['face_connections_offset']), ('path', ['face_count'])]))
-              and ss[2] == ('assign', '+=', ('path', ['face_connections_offset']), ('path', ['face_count'])))
-    out.append("/-- offsets: each cell gets the running offset and its own count, then the offset advances by that count -/\ndef offsetsArePrefixSums : Bool := %s\n" % ('true' if ok else 'false'))
     # ---- VoronoiFace::is_periodic / is_boundary, VoronoiCell::neighbour_ids
     ft = tokenize(strip_attrs_cfg(read('src/voronoi/voronoi_face.rs')))
     for fn, lean, arg in (('is_periodic', 'facePeriodic', 'shift : Option Unit'), ('is_boundary', 'faceBoundary', 'right : Option Nat')):
@@ -1798,20 +1937,18 @@ def gen_rules():
     if cl is None or cl[2][0] != 'block':
         raise Unparsed("closure of neighbour_ids")
     ss = cl[2][1]
-    if not (len(ss) == 2 and ss[0][0] == 'let' and ss[0][2] == ('pvar', 'face') and ss[1][0] == 'expr' and ss[1][1][0] == 'if' and ss[1][1][3] is None):
+    if not (len(ss) == 2 and ss[0][0] == 'let' and ss[0][2][0] == 'pvar' and ss[1][0] == 'expr' and ss[1][1][0] == 'if' and ss[1][1][3] is None):
         raise Unparsed("closure body of neighbour_ids")
     ret = ss[1][1][2][1]
     if ret != [('expr', ('return', ('path', ['None'])))]:
         raise Unparsed("early return of neighbour_ids")
-    env = {'face': ('face', 'FACE'), 'self': ('self_', 'SELF')}
+    env = {ss[0][2][1]: ('face', 'FACE'), 'self': ('self_', 'SELF')}
     c, tc = RE().expr(ss[1][1][1], env)
     v, tv = RE().expr(cl[2][2], env)
     if tc != 'B' or tv != 'ON':
         raise Unparsed("neighbour_ids types")
-    chain = method_chain(blk[2]) if blk[2] is not None else []
     out.append("/-- the closure of `VoronoiCell::neighbour_ids` applied to one listed face -/\n"
                "def neighbourOf (left : Nat) (right : Option Nat) (shift : Option Unit) (idx : Nat) : Option Nat :=\n  if %s then none else %s\n" % (c, v))
-    out.append("/-- `neighbour_ids` maps that closure over the cell's face indices -/\ndef neighbourIdsChain : List String := [%s]\n" % ', '.join('"%s"' % x for x in chain))
     return '\n'.join(out)
 
 # --------------------------------------------------------------------------
